@@ -13,7 +13,8 @@ From HP Require Import Base.Bytes Base.Utf8 Base.Num Model.Elements Model.Dates 
 From HP Require Import Base.GoFloat.
 From HP Require Import Proofs.PresentationStrip Proofs.PresentationColour Proofs.PresentationLayout
   Proofs.PresentationShorten Proofs.PresentationSort Proofs.PresentationFlags Proofs.PresentationNoEsc
-  Proofs.PresentationFloatOrder.
+  Proofs.PresentationFloatOrder Proofs.PresentationRun Proofs.PresentationRunC15 Proofs.PresentationRunReg.
+From HP Require Import Model.Scanner Model.Parser Model.Resolver.
 
 (** "... with positive amounts red, negative green and zero uncoloured" *)
 Theorem format_value_color : forall (NM : Num) (v : T NM),
@@ -282,3 +283,62 @@ Theorem color_flag_any_level : forall (w : world) (i : invocation) (op : options
   /\ rc_single_food (op_rc op) = i_single_food i.
 Proof. exact PresentationFlags.color_flag_any_level. Qed.
 Print Assumptions color_flag_any_level.
+
+(** *** the complete output of the program (standard output never failing) *)
+
+(** "coloured output equals plain output once escape codes are removed": [reg] with any other
+    flags, the colour switched off at either level or not at all; also the exit status *)
+Theorem color_strip_run_reg : forall (NM : Num) (w : world) (i : invocation) (g1 l1 g2 l2 : bool),
+  w_sink w = None -> i_cmd i = CReg ->
+  strip_sgr (out_stdout (run NM w (with_no_color i g1 l1)))
+  = strip_sgr (out_stdout (run NM w (with_no_color i g2 l2)))
+  /\ out_status (run NM w (with_no_color i g1 l1)) = out_status (run NM w (with_no_color i g2 l2)).
+Proof. exact PresentationRunReg.color_strip_run_reg. Qed.
+Print Assumptions color_strip_run_reg.
+
+Theorem color_strip_run_summary : forall (NM : Num) (w : world) (i : invocation) (arg : bytes) (g1 l1 g2 l2 : bool),
+  w_sink w = None -> i_cmd i = CSummary arg ->
+  strip_sgr (out_stdout (run NM w (with_no_color i g1 l1)))
+  = strip_sgr (out_stdout (run NM w (with_no_color i g2 l2)))
+  /\ out_status (run NM w (with_no_color i g1 l1)) = out_status (run NM w (with_no_color i g2 l2)).
+Proof. exact PresentationRunReg.color_strip_run_summary. Qed.
+Print Assumptions color_strip_run_summary.
+
+(** "Default register output is exactly the no-totals and totals-only outputs interleaved per
+    day": the whole output, over the list of days the walk selects (which depends on no
+    presentation option) *)
+Theorem default_is_interleave_run : forall (NM : Num) (c : rconfig) (w : world) (op : options)
+    (bt et : option time) (odb olog : opened) (d : list (bytes * elements NM)) (toks : list ltoken),
+  w_sink w = None ->
+  open_all w [op_db op; op_log op] = Some [odb; olog] ->
+  resolved_db NM w op odb = inr d ->
+  tokenize (op_fmt op) = Some toks ->
+  let days := fst (opened_days NM toks bt et olog) in
+  let D := fun il : nat * lognode NM => fdate c (ln_time NM (snd il)) in
+  let E := fun il : nat * lognode NM => day_entries NM c d (snd il) in
+  let Tt := fun il : nat * lognode NM => day_totals NM c (o_day (w_or w) (fst il)) d (snd il) in
+  out_stdout (run_db_log NM w op (rep_template NM (set_totals c true false)) bt et)
+    = flat_map (fun il => D il ++ E il ++ Tt il ++ [c_lf]) days
+  /\ out_stdout (run_db_log NM w op (rep_template NM (set_totals c false false)) bt et)
+    = flat_map (fun il => D il ++ E il ++ [c_lf]) days
+  /\ out_stdout (run_db_log NM w op (rep_template NM (set_totals c true true)) bt et)
+    = flat_map (fun il => D il ++ Tt il ++ [c_lf]) days.
+Proof. exact PresentationRunC15.interleave_run_db_log. Qed.
+Print Assumptions default_is_interleave_run.
+
+(** the template reporter and the old reporter print, day by day, layouts of the same items *)
+Theorem templates_same_rows_run : forall (NM : Num) (c : rconfig) (w : world) (op : options)
+    (bt et : option time) (odb olog : opened) (d : list (bytes * elements NM)) (toks : list ltoken),
+  w_sink w = None ->
+  open_all w [op_db op; op_log op] = Some [odb; olog] ->
+  resolved_db NM w op odb = inr d ->
+  tokenize (op_fmt op) = Some toks ->
+  let days := fst (opened_days NM toks bt et olog) in
+  let item := fun il : nat * lognode NM => get_report_item NM c (o_day (w_or w) (fst il)) d (snd il) in
+  out_stdout (run_db_log NM w op (rep_template NM c) bt et)
+    = flat_map (fun il => render_with NM (if beq (rc_template c) (b "left-aligned") then layout_left else layout_default)
+                            c (item il)) days
+  /\ out_stdout (run_db_log NM w op (rep_old NM c) bt et)
+    = flat_map (fun il => render_with NM (layout_old (day_has_contributions NM d (snd il))) c (item il)) days.
+Proof. exact PresentationRunC15.templates_same_rows_run. Qed.
+Print Assumptions templates_same_rows_run.
